@@ -32,3 +32,11 @@ package lz4
 //@   prop C08, C06, C05
 //@   assigns rstream(source), wstream(dest)
 //@   ensures block: result == nil ==> written(dest) >= old(written(dest)) + 5
+
+// The body format of an empty message is the length prefix 0 followed by the one-byte LZ4 token of the empty block:
+// decompressing it consumes exactly those 5 bytes (a reader that leaves the token behind desynchronises the stream).
+//@ func (Compressor).DecompressWithLength
+//@   prop C08, C05, C03
+//@   assigns rstream(source), wstream(dest)
+//@   let p0 = pos(source)
+//@   ensures empty: result == nil && old(primitive.rbe4(source, pos(source))) == 0 ==> pos(source) == p0 + 5
